@@ -108,13 +108,16 @@ def run(chk, replay=None):
 
     # ---- cluster histories ---------------------------------------------------------------
     faults = [None, "kill9", "sigstop"] if tier == "quick" else [None, "kill9", "sigstop", "restart"] * 4
-    n_ops = 30 if tier == "quick" else 60
+    n_ops = 50 if tier == "quick" else 80
     model_exprs, model_expect = [], []
     for fi, fault in enumerate(faults):
         o = nodescen.scenario_cluster_writes(binary, rng, n_ops=n_ops, fault=fault)
         n_eval += 1
         nontrivial.add(("cluster", fault, fi))
         probs = final_consistent(o)
+        for f in o.get("fatal", []):
+            chk.classify("storage-fatal", "the Raft core of node %s was shut down by its storage layer: %s" % (f["node"], f["line"]),
+                         {"scenario": "cluster_writes", "fault": fault, "fatal": f, "history": o["history"]})
         if o["errors"] and not probs:
             # a node that did not come back / join in time: liveness of the real cluster, retried once
             o2 = nodescen.scenario_cluster_writes(binary, rng, n_ops=n_ops, fault=fault)
